@@ -361,7 +361,7 @@ func ruleResetRearms(c *Check, p *Program, rule string) {
 	// _State.reset restores states[0] and clears the error
 	if fn := findFn(c, p, rule, "", "_State.reset"); fn != nil {
 		okS, okE := false, false
-		allInstrs(fn, func(in ssa.Instruction) {
+		allInstrsDeep(fn, func(in ssa.Instruction) {
 			if st, ok := in.(*ssa.Store); ok {
 				if lastField(st.Addr) == "_State.state" {
 					if u, isU := st.Val.(*ssa.UnOp); isU {
